@@ -737,6 +737,15 @@ func superviseChunks(res *hlib.Result, prefix string, total, chunk, workers int,
 		go func(w int) {
 			defer wg.Done()
 			for j := range jobs {
+				mu.Lock()
+				n := 0
+				for _, c := range res.FailCount {
+					n += c
+				}
+				mu.Unlock()
+				if n >= maxFailsTotal {
+					continue // drain: enough failures reported
+				}
 				local := &hlib.Result{}
 				ex := supervise(local, prefix, j.b, func(start int) []string {
 					if start < j.a {
